@@ -766,8 +766,7 @@ func boundary32() []uint32 {
 		add(uint32(p))     //nolint:gosec
 		add(uint32(p + 1)) //nolint:gosec
 	}
-	for _, x := range []uint32{0, 1, 59, 60, 599, 600, 601, 3599, 3600, 3601, 86400, 0x2112A442, 0x7FFFFFFF, 0x80000000, 0xFFFFFFFE, 0xFFFFFFFF,
-		9223372036, 9223372037} { // around MaxInt64 nanoseconds expressed in seconds (mod 2^32 irrelevant: > 2^32 wraps, kept for the low part)
+	for _, x := range []uint32{0, 1, 59, 60, 599, 600, 601, 3599, 3600, 3601, 86400, 0x2112A442, 0x7FFFFFFF, 0x80000000, 0xFFFFFFFE, 0xFFFFFFFF} {
 		add(x)
 	}
 
